@@ -1,7 +1,341 @@
-//! C18 — not implemented yet.
-use vmon::report::Args;
+//! C18 — stable row ids are stable and resolvable.
+//!
+//! After every step of a seeded history on a table with stable row ids: the map id -> `_rowid` is
+//! constant over the life of the row (through update, merge_insert update, partial-schema
+//! merge_insert, compaction incl. distributed commit, index creation), injective among live rows,
+//! and `take_rows([rowid…])` returns the current values of exactly those rows.
 
-pub fn run(_args: &Args) -> i32 {
-    eprintln!("HARNESS-ERROR C18 not implemented");
-    2
+use serde_json::json;
+use std::collections::{BTreeMap, BTreeSet};
+use vmon::prng::{fnv_str, Rng};
+use vmon::report::{Args, Report};
+use vmon::table::{batch_to_rows, render_row, Row};
+
+use crate::hist::{check_contents, observe, Finding, Hist, HistCfg, Model, Obs, Outcome};
+use crate::util::{guard, install_quiet_panic_hook, run_parallel, selftest_requested, Histo};
+
+pub struct TakeObs {
+    pub requested: Vec<u64>,
+    pub rows: Vec<Row>,
+}
+
+/// The deciding oracle: pure function of (model incl. the row ids recorded so far, observation).
+pub fn oracle(model: &Model, obs: &Obs, take: Option<&TakeObs>, after: &str) -> Vec<Finding> {
+    let mut out = check_contents(model, obs, after);
+    // every live row reports a row id; id -> rowid constant
+    let mut by_rowid: BTreeMap<u64, i64> = BTreeMap::new();
+    for r in &obs.rows {
+        let Some(rid) = r.rowid else {
+            out.push(Finding::new(
+                format!("scan-without-rowid-after-{after}"),
+                format!("id {} has no _rowid in the scan", r.id),
+                json!({"id": r.id}),
+            ));
+            continue;
+        };
+        if let Some(other) = by_rowid.insert(rid, r.id) {
+            out.push(Finding::new(
+                format!("rowid-shared-by-two-live-rows-after-{after}"),
+                format!("_rowid {rid} is reported for ids {other} and {}", r.id),
+                json!({"rowid": rid, "ids": [other, r.id]}),
+            ));
+        }
+        if let Some(m) = model.rows.get(&r.id) {
+            if let Some(prev) = m.rowid {
+                if prev != rid {
+                    out.push(Finding::new(
+                        format!("rowid-changed-after-{after}"),
+                        format!("id {}: _rowid was {prev}, is {rid} after {after}", r.id),
+                        json!({"id": r.id, "before": prev, "after": rid}),
+                    ));
+                }
+            }
+        }
+    }
+    // take_rows resolves every requested live row id to the row's current values, in order
+    if let Some(t) = take {
+        if t.rows.len() != t.requested.len() {
+            out.push(Finding::new(
+                format!("take-rows-row-count-after-{after}"),
+                format!(
+                    "take_rows of {} live row ids returned {} rows",
+                    t.requested.len(),
+                    t.rows.len()
+                ),
+                json!({"requested": t.requested, "returned": t.rows.len()}),
+            ));
+        } else {
+            for (rid, row) in t.requested.iter().zip(&t.rows) {
+                let Some(id) = by_rowid.get(rid) else { continue };
+                let Some(m) = model.rows.get(id) else { continue };
+                if &m.cells != row {
+                    let got_id = row.first().and_then(|c| c.as_i64());
+                    out.push(Finding::new(
+                        if got_id == Some(*id) {
+                            format!("take-rows-stale-or-wrong-values-after-{after}")
+                        } else {
+                            format!("take-rows-resolves-to-other-row-after-{after}")
+                        },
+                        format!("take_rows([{rid}]) should return id {id} with its current values"),
+                        json!({"rowid": rid, "expected": render_row(&m.cells), "returned": render_row(row)}),
+                    ));
+                    break;
+                }
+            }
+        }
+    }
+    out
+}
+
+/// remember the row id of rows seen for the first time
+pub fn absorb(model: &mut Model, obs: &Obs) {
+    for r in &obs.rows {
+        if let Some(m) = model.rows.get_mut(&r.id) {
+            if m.rowid.is_none() {
+                m.rowid = r.rowid;
+            }
+        }
+    }
+}
+
+pub const WEIGHTS: &[(u32, &str)] = &[
+    (3, "append"),
+    (3, "delete"),
+    (4, "update"),
+    (3, "upsert"),
+    (1, "insert_only"),
+    (2, "partial_upsert"),
+    (3, "compact_any"),
+    (1, "create_index"),
+];
+
+async fn take_live(h: &Hist, obs: &Obs, rng: &mut Rng) -> Result<Option<TakeObs>, crate::util::Fail> {
+    let live: Vec<u64> = obs.rows.iter().filter_map(|r| r.rowid).collect();
+    if live.is_empty() {
+        return Ok(None);
+    }
+    let n = rng.urange(1, live.len().min(40));
+    let mut req: Vec<u64> = rng.sample_indices(live.len(), n).into_iter().map(|i| live[i]).collect();
+    if rng.chance(1, 3) {
+        // duplicates
+        let d = *rng.pick(&req);
+        req.push(d);
+    }
+    if rng.chance(1, 3) {
+        req.sort();
+    }
+    // a fresh session builds the row id index from the manifest; the working handle may have it cached
+    let ds = if rng.bool() {
+        guard(h.actor.fresh_session().open(&h.uri)).await?
+    } else {
+        h.ds.clone()
+    };
+    let proj = ds.schema().clone();
+    let b = guard(ds.take_rows(&req, proj)).await?;
+    Ok(Some(TakeObs {
+        requested: req,
+        rows: batch_to_rows(&b),
+    }))
+}
+
+struct Ctx<'a> {
+    report: &'a Report,
+    ops: &'a Histo,
+    diag: &'a Histo,
+}
+
+fn corrupt(obs: &mut Obs, take: &mut Option<TakeObs>, rng: &mut Rng) -> bool {
+    if obs.rows.len() < 2 {
+        return false;
+    }
+    match rng.below(3) {
+        0 => {
+            // two rows swap row ids
+            let a = obs.rows[0].rowid;
+            obs.rows[0].rowid = obs.rows[1].rowid;
+            obs.rows[1].rowid = a;
+            true
+        }
+        1 => {
+            // a row takes the row id of another live row
+            obs.rows[0].rowid = obs.rows[1].rowid;
+            true
+        }
+        _ => match take {
+            Some(t) if t.rows.len() >= 2 && t.requested[0] != t.requested[1] => {
+                t.rows.swap(0, 1);
+                true
+            }
+            _ => {
+                obs.rows[0].rowid = obs.rows[0].rowid.map(|x| x + 1_000_000);
+                true
+            }
+        },
+    }
+}
+
+async fn run_case(cx: &Ctx<'_>, seed: u64, idx: u64, thorough: bool, selftest: bool) -> (u64, u64) {
+    let mut rng = Rng::for_case(seed, idx);
+    let cfg = HistCfg::random(&mut rng, Some(true));
+    let mut h = match Hist::create(&mut rng, cfg.clone(), &format!("c18-{seed}-{idx}"), (idx % 4000) as usize + 1).await {
+        Ok(h) => h,
+        Err(e) => {
+            cx.report.harness_error(&format!("case {idx}: create failed: {}", e.brief()));
+            return (0, 0);
+        }
+    };
+    let nsteps = if thorough { rng.urange(8, 24) } else { rng.urange(6, 14) };
+    let mut kinds: Vec<&'static str> = vec![];
+    let mut rowids_checked = 0u64;
+    let mut takes = 0u64;
+    let mut survived_rewrite = 0u64; // rows whose recorded row id was re-checked after an update-like op / compaction
+    let (mut applied, mut detected) = (0u64, 0u64);
+    let mut last: &'static str = "create";
+    for step in 0..=nsteps {
+        // ---- monitor (after create and after every step)
+        let obs = match guard(observe(&h.ds, true)).await {
+            Ok(o) => o,
+            Err(e) => {
+                cx.report.violation(
+                    &format!("scan-with-rowid-failed-after-{last}"),
+                    "scan projecting _rowid / version columns failed",
+                    json!({"seed": seed, "case": idx, "step": step, "error": e.brief(), "history": h.log_json()}),
+                );
+                return (applied, detected);
+            }
+        };
+        let take = match take_live(&h, &obs, &mut rng).await {
+            Ok(t) => t,
+            Err(e) => {
+                cx.report.violation(
+                    &format!("take-rows-of-live-rowids-failed-after-{last}"),
+                    "take_rows on row ids the scan just reported fails",
+                    json!({"seed": seed, "case": idx, "step": step, "error": e.brief(), "history": h.log_json()}),
+                );
+                return (applied, detected);
+            }
+        };
+        if selftest {
+            let mut o2 = obs.clone();
+            let mut t2 = take.map(|t| TakeObs { requested: t.requested, rows: t.rows });
+            let mut crng = Rng::for_case(seed ^ 0xBAD, idx * 64 + step as u64);
+            // row ids must be known to the model for a swap to be visible
+            let mut m2 = h.model.clone();
+            absorb(&mut m2, &obs);
+            if corrupt(&mut o2, &mut t2, &mut crng) {
+                applied += 1;
+                if !oracle(&m2, &o2, t2.as_ref(), last).is_empty() {
+                    detected += 1;
+                }
+            }
+            absorb(&mut h.model, &obs);
+        } else {
+            let findings = oracle(&h.model, &obs, take.as_ref(), last);
+            let known_before = h.model.rows.values().filter(|r| r.rowid.is_some()).count() as u64;
+            rowids_checked += known_before;
+            if matches!(last, "update" | "upsert" | "partial_upsert" | "compact" | "compact_distributed") {
+                survived_rewrite += known_before;
+            }
+            takes += take.as_ref().map(|t| t.requested.len() as u64).unwrap_or(0);
+            if !findings.is_empty() {
+                for f in findings {
+                    cx.report.violation(
+                        &f.sig,
+                        &f.what,
+                        json!({"seed": seed, "case": idx, "step": step, "detail": f.detail, "history": h.log_json()}),
+                    );
+                }
+                return (0, 0);
+            }
+            absorb(&mut h.model, &obs);
+        }
+        if step == nsteps {
+            break;
+        }
+        // ---- next operation
+        let op = h.gen_op(&mut rng, WEIGHTS);
+        let out = h.apply(&mut rng, &op).await;
+        cx.ops.add(op.kind(), 1);
+        last = op.kind();
+        match out {
+            Outcome::Applied => kinds.push(op.kind()),
+            Outcome::NoEffect => cx.ops.add(&format!("{}:no-effect", op.kind()), 1),
+            Outcome::Rejected(f) => {
+                cx.report.rejected();
+                cx.diag.add(&format!("rejected:{}:{}", op.kind(), f.msg().chars().take(80).collect::<String>()), 1);
+            }
+            Outcome::Failed(f) => {
+                // an operation of the history failed with an undocumented error: the state is
+                // still monitored (no effect expected), the failure itself is a diagnostic here
+                cx.diag.add(&format!("failed:{}:{}", op.kind(), f.brief().chars().take(120).collect::<String>()), 1);
+            }
+        }
+    }
+    if selftest {
+        return (applied, detected);
+    }
+    cx.report.count("rowids_rechecked", rowids_checked);
+    cx.report.count("rowids_rechecked_after_update_or_compaction", survived_rewrite);
+    cx.report.count("take_rows_keys", takes);
+    cx.report.count("steps", kinds.len() as u64);
+    let rewrites = kinds
+        .iter()
+        .filter(|k| matches!(**k, "update" | "upsert" | "partial_upsert" | "compact" | "compact_distributed"))
+        .count();
+    let nontrivial = rewrites >= 1 && survived_rewrite > 0;
+    let sig = format!("{:?}|{}|{}", cfg.version, cfg.initial_rows_per_file, kinds.join(","));
+    cx.report.case(if nontrivial { Some(fnv_str(&sig)) } else { None });
+    if nontrivial && cx.report.want_sample() {
+        cx.report.sample(json!({"case": idx, "history": h.log_json(), "rowids_rechecked": rowids_checked}));
+    }
+    let _: BTreeSet<u8> = BTreeSet::new();
+    (0, 0)
+}
+
+pub fn run(args: &Args) -> i32 {
+    install_quiet_panic_hook();
+    let report = Report::new(
+        args,
+        "exploration",
+        "One case = one seeded history (6-14 ops quick, 8-24 thorough) of append / delete / update / merge_insert \
+         (upsert, insert-only, partial schema) / compact_files or plan+execute+commit_compaction with random options / \
+         create scalar index on a multi-fragment table with stable row ids; after every step the scan's id->_rowid map is \
+         compared with the map recorded at the row's first appearance, injectivity is checked and take_rows of a random \
+         list of live row ids (duplicates, sorted/unsorted, cached or fresh session) is compared with the model. \
+         Non-trivial = >=1 applied update-like op or compaction after which previously recorded row ids were re-checked; \
+         distinct by (storage version, file size, applied op kinds).",
+        (60, 900),
+    )
+    .with_min_nontrivial(args.tier.pick(40, 400));
+    let ops = Histo::default();
+    let diag = Histo::default();
+    let cx = Ctx {
+        report: &report,
+        ops: &ops,
+        diag: &diag,
+    };
+    let selftest = selftest_requested(args);
+    let thorough = args.tier == vmon::report::Tier::Thorough;
+    let max_cases = if selftest { 60 } else { args.tier.pick(1_500, 40_000) };
+    let st = std::sync::Mutex::new((0u64, 0u64));
+    if let Some(i) = args.extra.get("case").and_then(|s| s.parse::<u64>().ok()) {
+        let rt = tokio::runtime::Builder::new_current_thread().enable_all().build().unwrap();
+        rt.block_on(run_case(&cx, args.seed, i, thorough, false));
+    } else {
+        run_parallel(&report, max_cases, 16, |i, rt| {
+            let r = rt.block_on(run_case(&cx, args.seed, i, thorough, selftest));
+            let mut g = st.lock().unwrap();
+            g.0 += r.0;
+            g.1 += r.1;
+        });
+    }
+    if selftest {
+        let g = st.lock().unwrap();
+        println!("SELFTEST C18 corruptions_applied={} detected={}", g.0, g.1);
+        return if g.0 > 0 && g.0 == g.1 { 0 } else { 2 };
+    }
+    report.set("ops_by_kind", ops.json());
+    report.set("op_failures_and_rejections", diag.json());
+    report.assume("single writer; concurrent writers and restores are covered by E-CONC / C07");
+    report.finish()
 }
